@@ -34,12 +34,24 @@ Fs(key, name, subs) == <<"field", key, name, subs, FALSE>>     \* @skip(if: true
 In(on, sels) == <<"inline", on, sels, TRUE>>
 Sp(name) == <<"spread", name, TRUE>>
 Lf(name) == F(name, name, <<>>)
+\* selections carrying their directives (inclusion decided by Execution!DirectivesInclude over TheVars)
+Fc(key, name, subs, conds) == <<"field", key, name, subs, conds, TRUE>>
+Inc(on, sels, conds) == <<"inline", on, sels, conds, TRUE>>
+Spc(name, conds) == <<"spread", name, conds, TRUE>>
+Skip(v) == <<"skip", v>>
+Incl(v) == <<"include", v>>
+Lit(b) == <<"lit", b>>
+V(n) == <<"var", n>>
+\* the coerced variable values: $t: Boolean! given true, $f: Boolean! given false, $d: Boolean = true not given
+TheVars == [t |-> TRUE, f |-> FALSE, d |-> TRUE]
 
 TheFragments == [
   F1 |-> [on |-> "Query", sels |-> <<Lf("a"), F("o", "o", <<Sp("G")>>)>>],
   G  |-> [on |-> "Obj", sels |-> <<Lf("x")>>],
   H  |-> [on |-> "Iface", sels |-> <<Lf("x")>>],
-  K  |-> [on |-> "JustOther", sels |-> <<Lf("__typename"), In("Other", <<Lf("z")>>)>>] ]
+  K  |-> [on |-> "JustOther", sels |-> <<Lf("__typename"), In("Other", <<Lf("z")>>)>>],
+  C1 |-> [on |-> "Query", sels |-> <<Fc("a", "a", <<>>, <<Incl(V("t"))>>), Fc("b", "b", <<>>, <<Skip(V("t"))>>), Spc("C2", <<Incl(V("f"))>>), Sp("C2")>>],
+  C2 |-> [on |-> "Query", sels |-> <<Fc("s", "s", <<>>, <<Skip(Lit(FALSE)), Incl(Lit(TRUE))>>)>>] ]
 
 Op(kind, sels, vary) == [kind |-> kind, sels |-> sels, vary |-> vary]
 Ops == <<
@@ -63,6 +75,18 @@ Ops == <<
   Op("query", <<Lf("__typename"), F("o", "o", <<Lf("__typename")>>)>>, <<<<"Query", "o">>>>),
   Op("query", <<F("lo", "lo", <<F("o", "o", <<Lf("y")>>)>>)>>, <<<<"Query", "lo">>, <<"Obj", "o">>, <<"Obj", "y">>>>),
   Op("query", <<F("i", "i", <<Sp("H")>>), F("u", "u", <<Sp("H"), Sp("G")>>)>>, <<<<"Query", "i">>, <<"Query", "u">>, <<"Other", "x">>>>),
+  \* @skip / @include with literals, variables and defaults, on fields, inline fragments and spreads; both directives at once;
+  \* a skipped spread does not count as visited; fields merged under one key where one occurrence is skipped
+  Op("query", <<Fc("a", "a", <<>>, <<Skip(V("t"))>>), Fc("b", "b", <<>>, <<Skip(V("f"))>>), Fc("s", "s", <<>>, <<Incl(V("f"))>>),
+                Fc("e", "e", <<>>, <<Incl(V("d"))>>), Fc("k", "a", <<>>, <<Incl(Lit(FALSE))>>)>>, <<<<"Query", "a">>, <<"Query", "b">>, <<"Query", "e">>>>),
+  Op("query", <<Fc("a", "a", <<>>, <<Skip(V("t")), Incl(V("t"))>>), Fc("b", "b", <<>>, <<Incl(V("t")), Skip(V("f"))>>),
+                Fc("s", "s", <<>>, <<Incl(V("f")), Skip(V("f"))>>), Fc("id", "id", <<>>, <<Skip(Lit(FALSE))>>)>>, <<<<"Query", "a">>, <<"Query", "b">>, <<"Query", "s">>>>),
+  Op("query", <<Inc("", <<Lf("a")>>, <<Skip(V("t"))>>), Inc("Query", <<Lf("b")>>, <<Incl(V("d"))>>), Inc("", <<Lf("s")>>, <<Incl(V("f"))>>),
+                Spc("C2", <<Skip(V("t"))>>), Lf("f")>>, <<<<"Query", "a">>, <<"Query", "b">>, <<"Query", "s">>>>),
+  Op("query", <<Spc("C2", <<Skip(V("t"))>>), Lf("a"), Sp("C2"), Sp("C1")>>, <<<<"Query", "a">>, <<"Query", "b">>, <<"Query", "s">>>>),
+  Op("query", <<F("o", "o", <<Lf("x")>>), Fc("o", "o", <<Lf("y")>>, <<Skip(V("t"))>>), Fc("on", "on", <<Lf("y")>>, <<Incl(V("f"))>>),
+                F("on", "on", <<Fc("x", "x", <<>>, <<Skip(V("d"))>>), Lf("__typename")>>)>>, <<<<"Query", "o">>, <<"Obj", "y">>, <<"Obj", "x">>>>),
+  Op("mutation", <<Fc("m1", "m1", <<>>, <<Skip(V("f"))>>), Fc("m2", "m2", <<>>, <<Skip(V("t"))>>), Fc("z", "m1", <<>>, <<Incl(V("t"))>>)>>, <<<<"Mutation", "m1">>, <<"Mutation", "m2">>>>),
   \* abstract type conditions that apply to one possible type only
   Op("query", <<F("i", "i", <<In("OnlyObj", <<Lf("y")>>), In("JustOther", <<F("tn", "__typename", <<>>), In("Other", <<Lf("z")>>)>>), Lf("x")>>)>>, <<<<"Query", "i">>, <<"Obj", "y">>>>),
   Op("query", <<F("u", "u", <<In("OnlyObj", <<F("k", "y", <<>>)>>), Sp("K"), In("Iface", <<Lf("x")>>)>>)>>, <<<<"Query", "u">>, <<"Other", "x">>>>)
@@ -106,7 +130,7 @@ Override(w, vary, choice) ==
   IF vary = <<>> THEN w
   ELSE LET tf == Head(vary) IN Override([w EXCEPT ![tf[1]][tf[2]] = Head(choice)], Tail(vary), Tail(choice))
 
-E(w) == INSTANCE Execution WITH Schema <- TheSchema, Fragments <- TheFragments, World <- w
+E(w) == INSTANCE Execution WITH Schema <- TheSchema, Fragments <- TheFragments, World <- w, VarValues <- TheVars
 
 VARIABLES opId, choice
 Init == /\ opId \in 1..Len(Ops)
